@@ -282,6 +282,25 @@ func TestC19(t *testing.T) {
 			r.Sample(map[string]any{"history": shape, "server": server})
 		}
 	})
+	// independent server (optional): tickets and PSKs issued and verified by OpenSSL
+	{
+		var ots []Target
+		for _, tg := range targets {
+			if PSKParrots[tg.Name] || tg.Name == "Golang" || mon.Thorough() || len(ots)%1 == 0 && (tg.Name == "Chrome_120" || tg.Name == "Firefox_105" || tg.Name == "IOS_14" || tg.Name == "Chrome_83" || tg.Name == "Edge_106" || tg.Name == "Safari_16_0" || tg.Name == "Firefox_65") {
+				ots = append(ots, tg)
+			}
+		}
+		opensslResumption(r, ots, func(tg Target, tls13 bool) bool {
+			if tls13 {
+				return hasPSK(tg)
+			}
+			return hasTicket(tg)
+		})
+		if r.Counter("openssl_available") > 0 {
+			r.Floor("openssl_resumed_tls13", 5)
+			r.Floor("openssl_resumed_tls12", 5)
+		}
+	}
 	r.Floor("resumed", 40)
 	r.Floor("mixed_resumed", 20)
 }
